@@ -16,7 +16,7 @@ cpath = os.path.join(wd, "s.c")
 subprocess.run([fd + "/flex"] + scanner.flex_args(c) + ["-o", cpath, l], check=True)
 defs = scanner.detect_defs(open(cpath).read())
 exe = os.path.join(wd, "s")
-subprocess.run(["gcc", "-O0", "-g", "-w", "-fsanitize=address,undefined"] + ["-D" + x for x in defs] + ["-I", fd, "-o", exe, cpath], check=True)
+subprocess.run(["gcc", "-O0", "-g", "-w", "-D_GNU_SOURCE", "-fsanitize=address,undefined"] + ["-D" + x for x in defs] + ["-I", fd, "-o", exe, cpath], check=True)
 files = ";".join(bytes(f).hex() for f in hdr["files"])
 keep = {k: hdr[k] for k in ("rs", "interactive", "array", "linenoopt", "bolneeded", "rejectmode", "strictread", "reentrant", "userwrap") if k in hdr}
 line = "\t".join([json.dumps(keep)[1:-1], files, hdr.get("sched", ""), hdr.get("ops", "-,0"), str(hdr["bufsize"]), str(hdr.get("initsc", 0)),
